@@ -25,7 +25,7 @@ def static_name(e):
 
 class ExprMixin:
     def clamp(self, x, n, st=None):
-        if st is not None and not smt.is_const(x) and not self.spec_heap_params:
+        if st is not None and not self.spec_mode and not smt.is_const(x):
             if self.entails(st, smt.And(smt.Le(smt.Int(0), x), smt.Le(x, n))):
                 return x
         if smt.is_const(x):
